@@ -296,7 +296,7 @@ class CreditControlRequest(CreditControl):
     access_network_charging_address: bytes
     access_network_charging_identifier_gx: list[AccessNetworkChargingIdentifierGx]
     an_gw_address: bytes
-    event_trigger: int
+    event_trigger: list[int]
 
     avp_def: AvpGenType = (
         AvpGenDef("session_id", AVP_SESSION_ID, is_required=True),
@@ -364,6 +364,7 @@ class CreditControlRequest(CreditControl):
         setattr(self, "proxy_info", [])
         setattr(self, "route_record", [])
         setattr(self, "event_trigger", [])
+        setattr(self, "framed_ipv6_prefix", [])
         setattr(self, "access_network_charging_identifier_gx", [])
 
         assign_attr_from_defs(self, self._avps)
